@@ -428,6 +428,45 @@ func init() {
 				}
 			}
 		}
+		// filtering a registry that is itself the result of a filter: a name that the sub-registry does not hold is an
+		// unknown name there (whatever the registry it came from holds), a name it holds selects; sources likewise
+		for _, src := range srcs {
+			sub, err := g.Filter(lint.FilterOptions{IncludeSources: lint.SourceList{lint.LintSource(src)}})
+			if err != nil || sub == nil || len(sub.Names()) == 0 {
+				continue
+			}
+			inSub := map[string]bool{}
+			for _, n := range sub.Names() {
+				inSub[n] = true
+			}
+			outside := ""
+			for _, n := range names {
+				if !inSub[n] {
+					outside = n
+					break
+				}
+			}
+			inside := sub.Names()[0]
+			if outside != "" {
+				for what, o := range map[string]lint.FilterOptions{"IncludeNames": {IncludeNames: []string{outside}}, "ExcludeNames": {ExcludeNames: []string{outside}},
+					"IncludeNames with a held name": {IncludeNames: []string{inside, outside}}, "ExcludeNames with a held name": {ExcludeNames: []string{inside, outside}}} {
+					if fr, err := sub.Filter(o); err == nil {
+						n := -1
+						if fr != nil {
+							n = len(fr.Names())
+						}
+						out.Violate("C08|nested-unknown-name-accepted", fmt.Sprintf("the registry filtered to source %s does not hold %s, yet filtering it again with %s naming that lint is accepted (%d lints selected) instead of being an unknown-name error", src, outside, what, n),
+							map[string]interface{}{"first": "IncludeSources " + src, "second": what, "name": outside}, "unknown lint name error", "accepted")
+					}
+				}
+			}
+			if fr, err := sub.Filter(lint.FilterOptions{IncludeNames: []string{inside}}); err != nil || len(fr.Names()) != 1 || fr.Names()[0] != inside {
+				out.Violate("C08|nested-include", "filtering the registry of source "+src+" again by a name it holds does not select exactly that lint", map[string]interface{}{"source": src, "name": inside}, nil, nil)
+			}
+			if fr, err := sub.Filter(lint.FilterOptions{ExcludeNames: []string{inside}}); err != nil || len(fr.Names()) != len(sub.Names())-1 {
+				out.Violate("C08|nested-exclude", "filtering the registry of source "+src+" again excluding a name it holds does not remove exactly that lint", map[string]interface{}{"source": src, "name": inside}, nil, nil)
+			}
+		}
 		for _, ln := range late {
 			specs = append(specs, FilterSpec{IncludeNames: []string{ln}}, FilterSpec{Regex: "verif_late"}, FilterSpec{ExcludeNames: []string{ln}}, FilterSpec{IncludeSources: []string{byName[ln].Src}},
 				FilterSpec{ExcludeSources: []string{"Mozilla"}})
